@@ -218,7 +218,7 @@ func (c contractorLog) RenewV2Contract(ts rhp4.TransactionSet, u proto4.Usage) e
 // VerifH_C16_renew: contract renewal on the host: same obligations as
 // formation, plus: the existing contract is marked renewed only on success.
 //
-//verif:harness prop=C16 tier=quick replay=native require=renewed,failed-after-funding bounds="1 renter input, 1..2 host inputs; basis relation, UpdateV2TransactionSet/pool failures and second-round selectors as in VerifH_C16_form (second round: honest / forged renewal signature / forged contract signature / absent); challenge selector"
+//verif:harness prop=C16,C09 tier=quick replay=native require=renewed,failed-after-funding bounds="existing contract with 0..2 sectors; 1 renter input, 1..2 host inputs; basis relation, UpdateV2TransactionSet/pool failures and second-round selectors as in VerifH_C16_form (second round: honest / forged renewal signature / forged contract signature / absent); challenge selector"
 func VerifH_C16_renew() {
 	hostKey, renterKey := keyFromByte(1), keyFromByte(2)
 	tip := types.ChainIndex{Height: 50, ID: types.BlockID{7}}
@@ -247,7 +247,16 @@ func VerifH_C16_renew() {
 		MissedHostValue: types.NewCurrency64(600), TotalCollateral: types.NewCurrency64(600),
 		RenterPublicKey: renterKey.PublicKey(), HostPublicKey: hostKey.PublicKey(), RevisionNumber: 5,
 	}
-	ec.VerifSetContract(id, existing, nil)
+	// the contract holds 0..2 sectors: its roots go with it into the new contract
+	var oldRoots []types.Hash256
+	nStored := vapi.Int("stored-sectors", 0, 2)
+	for k := 0; k < nStored; k++ {
+		oldRoots = append(oldRoots, rootN(k))
+	}
+	existing.Filesize = uint64(len(oldRoots)) * proto4.SectorSize
+	existing.Capacity = existing.Filesize
+	existing.FileMerkleRoot = proto4.MetaRoot(oldRoots)
+	ec.VerifSetContract(id, existing, oldRoots)
 	ec.VerifSetElement(id, types.V2FileContractElement{ID: id, StateElement: types.StateElement{LeafIndex: 9}, V2FileContract: existing})
 	params := proto4.RPCRenewContractParams{ContractID: id, Allowance: types.NewCurrency64(1000), Collateral: types.NewCurrency64(500), ProofHeight: 400}
 	req := proto4.RPCRenewContractRequest{Prices: prices, Renewal: params, MinerFee: types.NewCurrency64(10), Basis: reqBasis}
@@ -312,6 +321,8 @@ func VerifH_C16_renew() {
 	got, _, _ := ec.VerifContract(renewedID)
 	sh := consensus.State{}.ContractSigHash(got)
 	vapi.Assert("renew.contract-signed", renterKey.PublicKey().VerifyHash(sh, got.RenterSignature) && hostKey.PublicKey().VerifyHash(sh, got.HostSignature))
+	_, newRoots, _ := ec.VerifContract(renewedID)
+	vapi.Assert("renew.roots-carried-over", sameRoots(newRoots, oldRoots) && proto4.MetaRoot(newRoots) == got.FileMerkleRoot && got.Filesize == uint64(len(newRoots))*proto4.SectorSize)
 	got.RenterSignature, got.HostSignature = types.Signature{}, types.Signature{}
 	vapi.Assert("renew.contract-is-the-agreed-one", got == renewal.NewContract)
 }
@@ -319,7 +330,7 @@ func VerifH_C16_renew() {
 // VerifH_C16_refresh: contract refresh on the host (full and partial rollover):
 // same obligations as renewal.
 //
-//verif:harness prop=C16 tier=quick replay=native require=renewed,failed-after-funding bounds="full or partial rollover; 1 renter input, 1..2 host inputs; basis relation, UpdateV2TransactionSet/pool failures and second-round selectors as in VerifH_C16_form (second round: honest / forged renewal signature / forged contract signature / absent); challenge selector"
+//verif:harness prop=C16,C09 tier=quick replay=native require=renewed,failed-after-funding bounds="existing contract with 0..2 sectors; full or partial rollover; 1 renter input, 1..2 host inputs; basis relation, UpdateV2TransactionSet/pool failures and second-round selectors as in VerifH_C16_form (second round: honest / forged renewal signature / forged contract signature / absent); challenge selector"
 func VerifH_C16_refresh() {
 	partial := vapi.Bool("partial-rollover")
 	hostKey, renterKey := keyFromByte(1), keyFromByte(2)
@@ -349,7 +360,16 @@ func VerifH_C16_refresh() {
 		MissedHostValue: types.NewCurrency64(600), TotalCollateral: types.NewCurrency64(600),
 		RenterPublicKey: renterKey.PublicKey(), HostPublicKey: hostKey.PublicKey(), RevisionNumber: 5,
 	}
-	ec.VerifSetContract(id, existing, nil)
+	// the contract holds 0..2 sectors: its roots go with it into the new contract
+	var oldRoots []types.Hash256
+	nStored := vapi.Int("stored-sectors", 0, 2)
+	for k := 0; k < nStored; k++ {
+		oldRoots = append(oldRoots, rootN(k))
+	}
+	existing.Filesize = uint64(len(oldRoots)) * proto4.SectorSize
+	existing.Capacity = existing.Filesize
+	existing.FileMerkleRoot = proto4.MetaRoot(oldRoots)
+	ec.VerifSetContract(id, existing, oldRoots)
 	ec.VerifSetElement(id, types.V2FileContractElement{ID: id, StateElement: types.StateElement{LeafIndex: 9}, V2FileContract: existing})
 	params := proto4.RPCRefreshContractParams{ContractID: id, Allowance: types.NewCurrency64(1000), Collateral: types.NewCurrency64(500)}
 	req := proto4.RPCRefreshContractRequest{Prices: prices, Refresh: params, MinerFee: types.NewCurrency64(10), Basis: reqBasis}
@@ -421,6 +441,8 @@ func VerifH_C16_refresh() {
 	got, _, _ := ec.VerifContract(renewedID)
 	sh := consensus.State{}.ContractSigHash(got)
 	vapi.Assert("refresh.contract-signed", renterKey.PublicKey().VerifyHash(sh, got.RenterSignature) && hostKey.PublicKey().VerifyHash(sh, got.HostSignature))
+	_, newRoots, _ := ec.VerifContract(renewedID)
+	vapi.Assert("refresh.roots-carried-over", sameRoots(newRoots, oldRoots) && proto4.MetaRoot(newRoots) == got.FileMerkleRoot && got.Filesize == uint64(len(newRoots))*proto4.SectorSize)
 	got.RenterSignature, got.HostSignature = types.Signature{}, types.Signature{}
 	vapi.Assert("refresh.contract-is-the-agreed-one", got == renewal.NewContract)
 }
